@@ -51,6 +51,7 @@ CASES = {
         raw('r1', [['c'], con(b'r1'), ['w', T['CONNECT_CNF'], 1000], treq(), ['r', 100], ret(), ['r', 250], ret('token returned by a client that does not hold it'), ['r', 900], ['x']], 50),
         lib('t0', [['C', pref.VPS, 0, 5, 0], ['O', 0], ['G', 0], ['Q', 1, 0x10, 5, 1], ['T', 1200], ['D']], 250),
         raw('r2', [['c'], con(b'r2'), ['w', T['CONNECT_CNF'], 1000], treq(sub=0x40), ['r', 500], ['x']], 700)]),
+    ('C19', 'F12-client-library-ioctl-overflow'): base('C19', clients=[lib('c0', [['C', pref.VPS, 0, 5, 0], ['R', 3], ['I', 0], ['R', 3], ['D']])]),
     # ---- C18
     ('C18', 'F4-update-services-strict-100'): base('C18', clients=[lib('c0', [['C', pref.TTX_B, 0, 5, 0], ['R', 5], ['U', pref.VPS, 100, 0], ['R', 5], ['D']])]),
     ('C18', 'F6-line-count-equals-max-lines'): base('C18', opts=['dyn'], clients=[lib('c0', [['C', pref.VPS, 0, 5, 0], ['R', 10], ['D']])]),
